@@ -65,6 +65,9 @@ static std::string map_contents(ChaiScript &chai) {
 
 int main() {
   ChaiScript chai;
+  // const views: indexing them selects the `const Container &` overload of []
+  chai.add(fun([](const std::vector<Boxed_Value> &v) -> const std::vector<Boxed_Value> & { return v; }), "cview");
+  chai.add(fun([](const std::string &v) -> const std::string & { return v; }), "cview");
   const auto st = chai.get_state();
   const auto lo = chai.get_locals();
   std::string line;
@@ -105,7 +108,7 @@ int main() {
             const std::string nm = names[std::stoi(a[2])];
             src = a[1] == "1" ? "v." + nm + "(" + needle + ")" : nm + "(v, " + needle + ", size_t(" + a[4] + "))";
           } else
-          src = o == "idx" ? "v[" + a[1] + "]" : o == "front" ? "v.front()" : o == "back" ? "v.back()" : o == "push" ? "v.push_back(" + val(a[1]) + ")"
+          src = o == "idx" ? "v[" + a[1] + "]" : o == "cidx" ? "cview(v)[" + a[1] + "]" : o == "front" ? "v.front()" : o == "back" ? "v.back()" : o == "push" ? "v.push_back(" + val(a[1]) + ")"
               : o == "pop" ? "v.pop_back()" : o == "ins" ? "v.insert_at(" + a[1] + ", " + val(a[2]) + ")" : o == "era" ? "v.erase_at(" + a[1] + ")"
               : o == "rsz" ? "v.resize(" + a[1] + ", " + val(a[2]) + ")" : o == "sub" ? "v.substr(" + a[1] + ", " + a[2] + ")"
               : o == "clr" ? "v.clear()" : o == "size" ? "v.size()" : "v.empty()";
